@@ -9,6 +9,7 @@ import os
 import shutil
 import sys
 import tempfile
+import threading
 
 from vlib import core, probe
 
@@ -23,7 +24,7 @@ META = {
         "(both directions, redundant edges, declared as lists / tuples / sets / one-shot iterators and generators, 0-3 constraint names that are not installed, plugins "
         "with and without declared requirements), required flags, and configuration mappings over "
         "random subsets of the sections, optionally with unknown sections and a logging section, "
-        "given as a mapping or through a YAML file; digest results None / falsy / objects. "
+        "given as a mapping (section contents may hold live objects: instances without value equality, a lock) or through a YAML file; digest results None / falsy / objects. "
         "Non-trivial = at least 2 plugins and at least one constraint; distinct by content."
     ),
     "assumptions": [
@@ -78,7 +79,9 @@ def gen_case(rnd, spec):
     config = {}
     for p in plugins:
         if rnd.random() < 0.7:
-            config[p["section"]] = rnd.choice([{"a": 1}, [1, 2, {"b": None}], "text", 0, None, {}, [], {"nested": {"deep": [1.5, True]}}])
+            config[p["section"]] = rnd.choice([{"a": 1}, [1, 2, {"b": None}], "text", 0, None, {}, [], {"nested": {"deep": [1.5, True]}},
+                                               # live objects inside the content (what a YAML tag builds): handed on as they are
+                                               {"built": "<opaque>"}, ["<opaque>", {"guard": "<lock>"}]])
     unknown = []
     if rnd.random() < 0.3:
         unknown = rnd.sample(["typo", "pipelin", "extra", "Logging"], rnd.randint(1, 2))
@@ -89,6 +92,21 @@ def gen_case(rnd, spec):
     items = list(config.items())
     rnd.shuffle(items)
     return {"plugins": plugins, "config": dict(items), "unknown": unknown, "via_yaml": rnd.random() < 0.3}
+
+
+class Opaque:
+    """An object without value equality (like an instance a YAML tag has built)."""
+
+
+def same_objects(a, b):
+    """Containers may be rebuilt, the live objects in them must be the very same."""
+    if isinstance(b, dict):
+        return isinstance(a, dict) and set(a) == set(b) and all(same_objects(a[k], b[k]) for k in b)
+    if isinstance(b, list):
+        return isinstance(a, list) and len(a) == len(b) and all(same_objects(x, y) for x, y in zip(a, b))
+    if isinstance(b, (int, float, str, bool, type(None))):
+        return a == b
+    return a is b
 
 
 class Env:
@@ -158,7 +176,22 @@ def execute(case, result):
         if lp.required != spec["required"] or set(lp.before) != set(spec["before"]) or set(lp.after) != set(spec["after"]):
             problems.append(("plugin %s lost its requirements: %r" % (lp.section, lp), None))
 
-    config = {k: v for k, v in case["config"].items()}
+    def realise(value):
+        if value == "<opaque>":
+            return Opaque()
+        if value == "<lock>":
+            return threading.Lock()
+        if isinstance(value, dict):
+            return {k: realise(v) for k, v in value.items()}
+        if isinstance(value, list):
+            return [realise(v) for v in value]
+        return value
+
+    live = "<opaque>" in repr(case["config"]) or "<lock>" in repr(case["config"])
+    via_yaml = case["via_yaml"] and not live
+    config = {k: realise(v) for k, v in case["config"].items()}
+    if live:
+        result.count("configs_with_live_objects_in_the_content")
     expect_error = None
     if case["unknown"]:
         expect_error = "unknown"
@@ -168,7 +201,7 @@ def execute(case, result):
             expect_error = "missing"
     err = None
     try:
-        if case["via_yaml"]:
+        if via_yaml:
             path = os.path.join(ENV.dir, "config.yaml")
             with open(path, "w") as f:
                 yaml.safe_dump(config, f, allow_unicode=True)
@@ -203,7 +236,7 @@ def execute(case, result):
         else:
             result.count("digest_calls", len(called))
             for s, received in log:
-                if received != config[s] or type(received) is not type(config[s]):
+                if received != config[s] or type(received) is not type(config[s]) or (live and not same_objects(received, config[s])):
                     problems.append(("digest of %r received %r, section content is %r" % (s, received, config[s]), None))
             cpos = {s: i for i, s in enumerate(called)}
             for a, b in pairs:
@@ -244,6 +277,6 @@ def run_shard(spec):
 
 def finish(total, tier):
     for name in ("constraints_between_installed", "constraints_naming_absent", "configs_unknown_section", "configs_missing_required",
-                 "configs_valid", "digest_calls", "results_kept", "results_none_dropped", "configs_via_yaml_file"):
+                 "configs_valid", "digest_calls", "results_kept", "results_none_dropped", "configs_via_yaml_file", "configs_with_live_objects_in_the_content"):
         if not total.counters.get(name) and not total.violations:
             total.inconc("monitor never observed: " + name)
